@@ -64,6 +64,15 @@ func c19Expressions(thorough bool) []c19Expr {
 				add("let $x = "+b1+" in [let $x = "+b2+" in "+body+", $x]", "shadow-ends/"+t)
 				add("let $x = "+b1+" in a[*].[let $y = "+b2+" in "+body+"]", "nested-in-projection/"+t)
 				add("let $y = "+b2+" in (let $x = "+b1+" in "+body+") | [$y, @]", "let-then-pipe/"+t)
+				// an inner let that rebinds only one of the outer names
+				add("let $x = "+b1+", $y = "+b2+" in let $x = b in "+body, "partial-rebind/"+t)
+				add("let $x = "+b1+", $y = "+b2+" in let $y = @ in let $x = a in "+body, "partial-rebind-3/"+t)
+				// a binding must not leak out of its let into the enclosing scope
+				add("let $x = "+b1+" in [let $y = "+b2+" in "+body+", $y]", "leak-list/"+t)
+				add("let $x = "+b1+" in {p: let $y = "+b2+" in "+body+", q: $y}", "leak-hash/"+t)
+				// lets nested inside a projection: the outer one is rebound per element, the inner one aliases it
+				add("a[*].[let $x = "+b1+" in let $y = "+b2+" in "+body+"]", "nested-inside-projection/"+t)
+				add("map(&(let $x = "+b1+" in let $y = "+b2+" in "+body+"), a)", "nested-inside-expref/"+t)
 			})
 			if !thorough {
 				continue
